@@ -159,14 +159,10 @@ def finishCall (caller : St) (r : Res Flow × St) : Res Val × St :=
   | .haz h => (.haz h, back)
   | .unmodelled => (.unmodelled, back)
 
-/-- One unit of the total work budget (see `St.budget`); at zero the run is cut off as `oof`. -/
-def tick : EvalM Unit := fun s => if s.budget == 0 then oof s else (.ok (), { s with budget := s.budget - 1 })
-
 /-- The re-entry loop of `WHILEStatement::doit`, generic in how the condition and the body are run. -/
 def whileLoop (cond : EvalM Val) (body : EvalM Flow) : Nat → EvalM Flow
   | 0 => oof
   | k + 1 => do
-    tick
     let v ← cond
     let t ← liftM (if v.isNull then Res.ok false else v.asBool)
     if !t then return .norm
@@ -183,7 +179,6 @@ while that value — computed without wrap-around, as the repaired code does —
 def forLoop (body : EvalM Flow) (v : String) (min max step : Int64) : Nat → EvalM Flow
   | 0 => oof
   | k + 1 => do
-    tick
     let fl ← body
     match fl with
     | .brk => pure .norm
